@@ -18,6 +18,7 @@
  *   rtobj n sd        a type created at run time (new_root(Type, $S, $I, $(New..), $(Assign..), $(Cmp..), $(Hash..),
  *                     $(Show..), $(C_Int..))): objects in an Array (sorted) and as Table keys, $() objects of that
  *                     type, method()/type_method()/implements_method() on it, every object finalised exactly once
+ *   regs rounds base  six objects held only in locals (registers at -O1+) while non-inlined helpers allocate garbage
  *   gcl n churn       containers held only in local variables of this routine while `churn` garbage objects are
  *                     allocated (collections happen in the collector builds), then read back
  *   stk a b           stack objects: $I $F $S $R, alloc_stack + assign, construct(alloc_stack(Int)) + destruct,
@@ -266,6 +267,30 @@ static void r_gcl(long* v, int nv) {
   del(a); del(l); del(t); del(r); del(u); del(b); del(str);
 }
 
+/* ---- regs --------------------------------------------------------------------------------------------- */
+/* six collected objects kept alive in plain local variables (and nowhere else) while small non-inlined helpers allocate
+ * garbage, so that collections run while the six are live: at -O1 and above such locals sit in callee-saved registers
+ * that no callee on the way to the collector needs to spill, so they are only seen if the collector saves the registers */
+static __attribute__((noinline)) int64_t regs_one(int64_t v) { return c_int(new(Int, $I(v))); }
+static __attribute__((noinline)) int64_t regs_churn(long n, int64_t from) {
+  int64_t acc = 0;
+  for (long i = 0; i < n; i++) { acc += regs_one(from + i); }
+  return acc;
+}
+static __attribute__((noinline)) void r_regs(long* v, int nv) {
+  long rounds = v[0], base = v[1];
+  var a = new(Int, $I(base + 1));
+  var b = new(Int, $I(base + 2));
+  var c = new(Int, $I(base + 3));
+  var d = new(Int, $I(base + 4));
+  var e = new(Int, $I(base + 5));
+  var f = new(Int, $I(base + 6));
+  int64_t acc = regs_churn(rounds, 0);
+  acc += regs_churn(64, 7000000) & 1;        /* memory of anything freed gets reused */
+  OUT("acc=%" PRId64 " six=%" PRId64 ",%" PRId64 ",%" PRId64 ",%" PRId64 ",%" PRId64 ",%" PRId64,
+      acc, c_int(a), c_int(b), c_int(c), c_int(d), c_int(e), c_int(f));
+}
+
 /* ---- stk ---------------------------------------------------------------------------------------------- */
 struct Vec { double x, y; };
 static int Vec_Cmp(var self, var obj) {
@@ -409,7 +434,7 @@ static void r_thr(long* v, int nv) {
 static struct { const char* name; void (*f)(long*, int); int nargs; } ROUTINES[] = {
   {"tup", r_tup, 7}, {"each", r_each, 3}, {"views", r_views, 5}, {"exc", r_exc, 2}, {"fmt", r_fmt, 3},
   {"rtobj", r_rtobj, 2}, {"gcl", r_gcl, 2}, {"stk", r_stk, 2}, {"call", r_call, 2}, {"meth", r_meth, 1},
-  {"lock", r_lock, 1}, {"thr", r_thr, 2}, {NULL, NULL, 0}
+  {"lock", r_lock, 1}, {"thr", r_thr, 2}, {"regs", r_regs, 2}, {NULL, NULL, 0}
 };
 
 int main(int argc, char** argv) {
